@@ -73,14 +73,13 @@ def AtomParser(string=None):
     bases = [u for u in UNIT_STANDARD.keys() if string.endswith(u)]
     if bases:
         base = max(bases, key=len)
-        string = string[-len(base)-1]
+        string = string[1:-len(base)]      # everything in front of the unit symbol
         unitid = f"{base:s}"
     else:
         raise Exception('Unknown unit', string, string_bak)
     # parse unit prefix
-    prefkeys = [p for p in UNIT_PREFIXES.keys() if string.endswith(p)]
-    if prefkeys:
-        prefix = max(prefkeys, key=len)
+    if string in UNIT_PREFIXES.keys():
+        prefix = string
         if isinstance(UNIT_STANDARD[base].prefixes,list) and prefix not in UNIT_STANDARD[base].prefixes:
             raise Exception(f"Unit can have only following prefixes:", UNIT_STANDARD[base].prefixes, prefix)
         elif UNIT_STANDARD[base].prefixes is True and prefix not in UNIT_PREFIXES.keys():
@@ -88,8 +87,8 @@ def AtomParser(string=None):
         elif UNIT_STANDARD[base].prefixes is False:
             raise Exception(f"Unit cannot have any prefixes:", base)
         unitid = f"{prefix:s}{SYMBOL_UNITID}{unitid}"
-    elif len(string)>1:
-        raise Exception("Unknown unit prefix:", string)
+    elif string:
+        raise Exception("Unknown unit prefix:", string_bak)
     # return quantity
     return Atom(1.0, {unitid: exp})
         
